@@ -847,6 +847,49 @@ fn templates() -> Vec<(&'static str, Cfg, Vec<Ev>)> {
         }
         v.push((name, cfg3(), evs));
     }
+    // T8: a candidate whose election timer fires AGAIN starts its next term with a fresh tally: a grant
+    // collected in the previous term must not count towards the new term's quorum (5 voters: one stale
+    // grant + self + one fresh grant would make 3 of 5 while the stale voter backs a rival). A..E = 0..4.
+    v.push((
+        "stale-vote-tally-after-election-retry",
+        cfg5(),
+        vec![
+            Ev::Timeout(0, true),                                   // A candidate term 1
+            Ev::Inject(0, 1, M::Rv(1, 0, 0, 0), true, true),        // B grants A in term 1
+            Ev::Inject(1, 0, M::Rvr(1, true, 1), true, true),       // A's tally: {A, B}, no quorum
+            Ev::Timeout(0, true),                                   // A's timer fires again: candidate term 2
+            Ev::Timeout(3, true),
+            Ev::Timeout(3, true),                                   // D candidate term 2
+            Ev::Inject(3, 1, M::Rv(2, 3, 0, 0), true, true),        // B backs D in term 2
+            Ev::Inject(3, 2, M::Rv(2, 3, 0, 0), true, true),        // C backs D
+            Ev::Inject(1, 3, M::Rvr(2, true, 1), true, true),
+            Ev::Inject(2, 3, M::Rvr(2, true, 2), true, true),       // D leader of term 2 (D, B, C)
+            Ev::Inject(0, 4, M::Rv(2, 0, 0, 0), true, true),        // E backs A in term 2
+            Ev::Inject(4, 0, M::Rvr(2, true, 4), true, true),       // A's tally must be {A, E}: 2 of 5
+            Ev::Propose(0, 901, true),                              // if A became leader the logs now diverge
+            Ev::Propose(3, 902, true),
+        ],
+    ));
+    // the same with pre-vote configured (the retry goes through start_election directly)
+    v.push((
+        "stale-vote-tally-after-election-retry-prevote",
+        Cfg { n: 5, pre_vote: true, fast_path: false, geo: false, wal: false },
+        vec![
+            Ev::Timeout(0, true),
+            Ev::Inject(0, 1, M::Rv(1, 0, 0, 0), true, true),
+            Ev::Inject(0, 2, M::Rv(1, 0, 0, 0), true, true),
+            Ev::Inject(1, 0, M::Rvr(1, true, 1), true, true),       // A's tally: {A, B}
+            Ev::Timeout(0, true),                                   // term 2
+            Ev::Timeout(3, true),
+            Ev::Timeout(3, true),
+            Ev::Inject(3, 1, M::Rv(2, 3, 0, 0), true, true),
+            Ev::Inject(3, 2, M::Rv(2, 3, 0, 0), true, true),
+            Ev::Inject(1, 3, M::Rvr(2, true, 1), true, true),
+            Ev::Inject(2, 3, M::Rvr(2, true, 2), true, true),       // D leader of term 2
+            Ev::Inject(0, 4, M::Rv(2, 0, 0, 0), true, true),
+            Ev::Inject(4, 0, M::Rvr(2, true, 4), true, true),
+        ],
+    ));
     // T4: the same with 5 voters: two disjoint pairs vote, the fifth voter hears the heartbeat first
     v.push((
         "late-vote-request-after-heartbeat-5",
